@@ -273,7 +273,8 @@ Proof.
     split.
     + intros ->. rewrite He in P. discriminate P.
     + intros ->. pose proof (in_tables_forall _ V13 e table_hs13 Hin_t) as Q. cbn beta in Q. rewrite Hk, He in Q. lia.
-  - left. split; [reflexivity|]. apply andb_true_iff in H. destruct H as [H _]. apply eqb_prop in H. now rewrite <- H.
+  - left. split; [reflexivity|]. apply andb_true_iff in H. destruct H as [H _]. apply eqb_prop in H.
+    destruct b; [discriminate H|reflexivity].
   - right.
     assert (Hin_t : in_tables v e = true) by (apply andb_true_iff in H; tauto).
     pose proof table_clear_epoch0 as T. rewrite forallb_forall in T.
